@@ -35,7 +35,10 @@ struct CountPending<F> {
 impl<F: Future + Unpin> Future for CountPending<F> {
     type Output = F::Output;
     fn poll(mut self: Pin<&mut Self>, cx: &mut Context<'_>) -> Poll<F::Output> {
-        let r = Pin::new(&mut self.f).poll(cx);
+        // the channel only ever sees wakers that yield after waking (see harness::YieldingWaker)
+        let w = crate::harness::yielding_waker(cx.waker());
+        let mut cx2 = Context::from_waker(&w);
+        let r = Pin::new(&mut self.f).poll(&mut cx2);
         if r.is_pending() {
             probe(self.key);
         }
